@@ -71,6 +71,7 @@ type faultDS struct {
 	maxLenAt int // length of the iterator in which the trigger fired
 	// open faults: the n-th iterator open after armOpen fails with errInjected
 	slowNs     atomic.Int64 // > 0: every Next sleeps that long first (a slow datastore)
+	panicOnFire bool        // the fired trigger panics inside the datastore iterator instead of returning an error
 	openArmed  bool
 	openCount  int
 	failOpenAt int
@@ -138,6 +139,9 @@ func (f *faultDS) onNext() error {
 	f.fired = true
 	if f.cancel != nil {
 		f.cancel()
+	}
+	if f.panicOnFire {
+		panic("verif: injected datastore panic")
 	}
 	return f.failErr
 }
